@@ -90,6 +90,17 @@ func loadWorld(repo, verifDir string) (*World, error) {
 		return nil, err
 	}
 	w.cs = cs
+	propDeps = map[string][]string{}
+	ds := cs.Config["depends"]
+	for i := 0; i < len(ds); i++ {
+		// config lines are concatenated: "P Q R | P2 Q2": entries separated by "|"
+		_ = i
+	}
+	for _, line := range cs.DependsLines {
+		if len(line) >= 2 {
+			propDeps[line[0]] = append(propDeps[line[0]], line[1:]...)
+		}
+	}
 	// index every function of the two repo packages (incl. methods and generic instances)
 	for fn := range ssautil.AllFunctions(prog) {
 		if fn.Pkg == nil && fn.Origin() == nil {
